@@ -212,7 +212,7 @@ class RichTraceback:
                 )
             )
         if not self.source:
-            for l in range(len(new_trcback) - 1, 0, -1):
+            for l in range(len(new_trcback) - 1, -1, -1):
                 if new_trcback[l][5]:
                     self.source = new_trcback[l][7]
                     self.lineno = new_trcback[l][5]
